@@ -1,7 +1,7 @@
 (* C03 - the final score follows the documented valence/trigger arithmetic. *)
-From Coq Require Import ZArith QArith List String Bool.
+From Coq Require Import ZArith QArith List String Bool Permutation.
 Import ListNotations.
-From Pedal Require Import lib.PyMini lib.Assoc lib.StableSort model.C01_Resolver gen.C01_Gen model.C01_Run proof.C01_Lemmas.
+From Pedal Require Import lib.PyMini lib.Assoc lib.StableSort model.C01_Resolver gen.C01_Gen model.C01_Run proof.C01_Lemmas proof.C03_Order.
 Open Scope string_scope.
 Open Scope list_scope.
 
@@ -28,3 +28,17 @@ Theorem C03_muted_still_scores :
                                   (f_has_message f) (f_fields f)).
 Proof. exact muted_still_scores. Qed.
 Print Assumptions C03_muted_still_scores.
+
+(* the score does not depend on the order in which the feedback objects were recorded: two reports holding the
+   same feedback (any permutation, any split between the active and the ignored list) and the same suppressions
+   get the same score whenever neither resolves to the default result *)
+Theorem C03_score_is_independent_of_recording_order :
+  forall act ign act' ign' calls r r',
+    the_resolve act ign calls = Ok r ->
+    the_resolve act' ign' calls = Ok r' ->
+    Permutation (act ++ ign) (act' ++ ign') ->
+    (forall f, In f (act ++ ign) -> additive_fb f) ->
+    r_is_default r = false -> r_is_default r' = false ->
+    r_score r = r_score r'.
+Proof. exact score_order_independent. Qed.
+Print Assumptions C03_score_is_independent_of_recording_order.
